@@ -254,7 +254,13 @@ impl<B> Flow<B, SendRequest> {
     pub fn write(&mut self, output: &mut [u8]) -> Result<usize, Error> {
         match &mut self.inner.call {
             CallHolder::WithoutBody(v) => v.write(output),
-            CallHolder::WithBody(v) => v.write(&[], output).map(|r| r.1),
+            CallHolder::WithBody(v) => {
+                // Once the request is sent, an empty write would be taken as the end of the body.
+                if v.is_body() {
+                    return Ok(0);
+                }
+                v.write(&[], output).map(|r| r.1)
+            }
             _ => unreachable!(),
         }
     }
